@@ -236,6 +236,110 @@ theorem mesh_valid_after_save (name : α → String) (S S' P P' X : List α) (v 
   rw [e]
   exact emit_mesh_valid S'.length (P'.map name) X.length (List.length_pos_of_ne_nil hne)
     (fun p hp => by obtain ⟨c, hc, rfl⟩ := List.mem_map.1 hp; exact hP' c hc)
+
+/-! ### `<profile_COMMON>` through Effect.save: the parameters among the images, in front of the technique -/
+
+/-- `Effect.save`: `_syncChildren(profile_COMMON, params, newparam, before=<technique>)`.  For a schema-valid profile — an optional asset,
+    images and newparams in any order, the technique, extras — and ANY current parameter list the children are schema-valid after the save. -/
+theorem profile_valid_after_save (name : α → String) (wanted A M X : List α) (t : α)
+    (hA : A = [] ∨ ∃ a, A = [a] ∧ name a = "asset") (hM : ∀ c ∈ M, name c = "image" ∨ name c = "newparam")
+    (ht : name t = "technique") (hX : ∀ c ∈ X, name c = "extra") (hW : ∀ c ∈ wanted, name c = "newparam") :
+    cm_effect_profile_COMMON.rmatch
+      ((syncChildren (fun c => name c == "newparam") wanted (A ++ M ++ [t] ++ X) (some t)).map name) = true := by
+  have notW : ∀ c, name c ≠ "newparam" → c ∉ wanted := fun c hc hm => hc (hW c hm)
+  have hAn : ∀ c ∈ A, name c = "asset" := by
+    intro c hc
+    rcases hA with rfl | ⟨a, rfl, ha⟩
+    · cases hc
+    · simp at hc; rw [hc]; exact ha
+  have mA : ∀ c ∈ A, isM (fun c => name c == "newparam") wanted c = false := by
+    intro c hc
+    have := notW c (by rw [hAn c hc]; decide)
+    simp [isM, hAn c hc, this]
+  have mT : ∀ c ∈ [t] ++ X, isM (fun c => name c == "newparam") wanted c = false := by
+    intro c hc
+    have hn : name c ≠ "newparam" := by
+      simp only [List.singleton_append, List.mem_cons] at hc
+      rcases hc with rfl | hc
+      · rw [ht]; decide
+      · rw [hX c hc]; decide
+    have := notW c hn
+    simp [isM, hn, this]
+  -- kept children
+  obtain ⟨imgs, himgs⟩ : ∃ imgs, imgs = M.filter (fun c => !isM (fun c => name c == "newparam") wanted c) := ⟨_, rfl⟩
+  have hk : kept (fun c => name c == "newparam") wanted (A ++ M ++ [t] ++ X) = (A ++ imgs) ++ ([t] ++ X) := by
+    unfold kept
+    simp only [List.append_assoc, List.filter_append]
+    rw [Pyc.Sync.filter_all (l := A) (fun c hc => by simp [mA c hc])]
+    rw [← himgs]
+    have : ([t] ++ X).filter (fun c => !isM (fun c => name c == "newparam") wanted c) = [t] ++ X :=
+      Pyc.Sync.filter_all (fun c hc => by simp [mT c hc])
+    simp only [List.filter_append] at this
+    rw [this]
+  have himg : ∀ c ∈ imgs, name c = "image" := by
+    intro c hc
+    rw [himgs, List.mem_filter] at hc
+    rcases hM c hc.1 with h | h
+    · exact h
+    · simp [isM, h] at hc
+  -- position of the block
+  obtain ⟨p, hp, hlo, hhi⟩ : ∃ p, pos (fun c => name c == "newparam") wanted (A ++ M ++ [t] ++ X) (some t) = p ∧ A.length ≤ p ∧ p ≤ A.length + imgs.length := by
+    refine ⟨_, rfl, ?_, ?_⟩ <;>
+    · unfold pos
+      have e1 : (A ++ M ++ [t] ++ X).findIdx? (isM (fun c => name c == "newparam") wanted)
+          = (M.findIdx? (isM (fun c => name c == "newparam") wanted)).map (· + A.length) := by
+        rw [show A ++ M ++ [t] ++ X = A ++ (M ++ ([t] ++ X)) by simp [List.append_assoc]]
+        rw [Pyc.Sync.findIdx?_prefix _ mA, Pyc.Sync.findIdx?_none_suffix _ M _ mT]
+      rw [e1]
+      cases hf : M.findIdx? (isM (fun c => name c == "newparam") wanted) with
+      | some i =>
+        have := Pyc.Sync.findIdx?_le_filter_not _ M i hf
+        simp only [Option.map_some]
+        rw [← himgs] at this
+        omega
+      | none =>
+        simp only [Option.map_none]
+        rw [hk]
+        have hnone : ∀ c ∈ M, isM (fun c => name c == "newparam") wanted c = false := by
+          intro c hc
+          have := (List.findIdx?_eq_none_iff.1 hf) c hc
+          simpa using this
+        have hti : t ∉ A ++ imgs := by
+          intro hm
+          rcases List.mem_append.1 hm with h | h
+          · have := hAn t h; rw [ht] at this; revert this; decide
+          · have := himg t h; rw [ht] at this; revert this; decide
+        rw [List.idxOf_append, if_neg hti]
+        simp
+  unfold syncChildren
+  simp only [hk, hp]
+  have hple : p ≤ (A ++ imgs).length := by simp; omega
+  rw [List.take_append_of_le_length hple, List.drop_append_of_le_length hple]
+  have hAp : A.length ≤ p := hlo
+  rw [List.take_append, List.drop_append]
+  rw [List.take_of_length_le hAp, List.drop_eq_nil_of_le hAp]
+  -- the word
+  apply rmatch_of_mem
+  have mAs : A.map name ∈ (1 + char "asset").matches' := by
+    rcases hA with rfl | ⟨a, rfl, ha⟩
+    · exact mem_opt_nil
+    · simp only [List.map_cons, List.map_nil, ha]; exact mem_opt_some (mem_char _)
+  have mMid : ((imgs.take (p - A.length)) ++ wanted ++ (imgs.drop (p - A.length))).map name
+      ∈ (star (char "image" + char "newparam")).matches' := by
+    apply mem_star_of_forall
+    intro a ha
+    obtain ⟨c, hc, rfl⟩ := List.mem_map.1 ha
+    simp only [List.mem_append] at hc
+    rcases hc with (hc | hc) | hc
+    · rw [himg c (List.mem_of_mem_take hc)]; exact mem_add_left (mem_char _)
+    · rw [hW c hc]; exact mem_add_right (mem_char _)
+    · rw [himg c (List.mem_of_mem_drop hc)]; exact mem_add_left (mem_char _)
+  have mX : X.map name ∈ (star (char "extra")).matches' :=
+    mem_star_of_forall _ (fun a ha => by
+      obtain ⟨c, hc, rfl⟩ := List.mem_map.1 ha
+      rw [hX c hc]; exact mem_char _)
+  have := mem_mul (mem_mul (mem_mul mAs mMid) (mem_char "technique")) mX
+  simpa [cm_effect_profile_COMMON, List.map_append, List.append_assoc, ht] using this
 end
 
 end Pyc.Props.C04
